@@ -54,6 +54,20 @@ def local_rule_failures(i, op, ob, snap, cur):
         # a single timeout vote is only verified and counted; its high_qc is processed when the quorum forms
         if vs and "timeout" not in inner["m"] and max(vs) > cur[1]:
             bad.append({"step": i, "failed": f"accepted a message carrying a commit certificate for view {max(vs)} but the replica's high commit certificate afterwards is for view {cur[1]} (certificate shown to the replica is dropped)"})
+    # votes the replica has counted stay countable: a validator whose latest timeout (commit) vote the replica has
+    # recorded for a view >= its own view is represented in the certificate under construction for that view
+    # (otherwise a re-sent vote is refused as a duplicate and that weight can never be counted: C06G_timeout_views_have_bits)
+    if len(snap) > 9:
+        tq_views = {int(x) for x in snap[9]}
+        for kv in snap[8]:
+            if int(kv[1]) >= cur[0] and int(kv[1]) not in tq_views:
+                bad.append({"step": i, "failed": f"validator {kv[0]}'s timeout vote for view {kv[1]} is recorded as counted but no timeout certificate is under construction for that view (its weight can never be counted again)"})
+                break
+        cq_views = {int(x[0]) for x in snap[7]}
+        for kv in snap[6]:
+            if int(kv[1]) >= cur[0] and int(kv[1]) not in cq_views:
+                bad.append({"step": i, "failed": f"validator {kv[0]}'s commit vote for view {kv[1]} is recorded as counted but no commit certificate is under construction for that view"})
+                break
     hv = snap[2][0] if snap[2] else None
     for e in ob[1][0]:
         if e[0] != 1:
